@@ -30,6 +30,12 @@ replay: each history is executed on
             (ParseString; SetInitialConditions: every endogenous series has exactly its k=0 point, the
             exogenous one MaxTime+1) - world "initialised".  The evidence counts these retrievals
             (suppressed_one_point_gets); none executed = machinery failure.
+          * Model.MaxTime as state (instances MC_Results_horizon*): SetMaxTime assigns Model.MaxTime between
+            calls (1, 0, back to 100); the step group holds 5 points, the initial group 4, the main group 3;
+            cutoff 3 (argument or TimeSeriesCutoff) is larger than MaxTime.  The length of a stored series has
+            nothing to do with Model.MaxTime (step group: one point per sweep), so no retrieval may depend on
+            it.  Thorough tier also on the solved SIM model (MaxTime 8) whose step group really holds 160
+            sweeps of HH__F (tracked for these histories only).
           * a small BaseSolver subclass (the object of test_base_solver.py) for BaseCsv
         after every call a deep snapshot of the three holders, of BaseSolver.VariableList and of
         the BaseSolver's series attributes is taken and compared with the previous one; lists returned
@@ -71,6 +77,7 @@ BASE = {'x': [1., 1., 1.], 'y': [2., 2., 2.], 't': [0., 1., 2.]}      # = MC_Bas
 SOLVED_NAMES = {'t': 't', 'x': 'HH__F'}                               # behaviour name -> series of SIM
 SOLVED_ABSENT = {'q': 'HH_x'}                                         # a name no group of the solved model holds
 SOLVED_MAXTIME = 8
+SOLVED_STEP_NAMES = {'x': 'HH__F'}                                     # tracked only when a history asks for step:x
 SOLVED_TRACESTEP = 2                                                  # fills the 'step' group with the sweeps of k=2
 # interrupted run: behaviour name -> stored series; every stored series is tracked
 INTERRUPTED_NAMES = {'t': 'S__G', 'x': 'S__X', 'k': 'k', 'tt': 't'}
@@ -127,9 +134,14 @@ class World(object):
                 if real not in ts or len(ts[real]) != SOLVED_MAXTIME + 1:
                     raise core.MachineryError('solved model has no usable series %r' % real)
                 vals.update(ts[real])
-            self.table = {v: 100 + i for i, v in enumerate(sorted(vals))}
-            if not self.holders()['step']:
+            step = self.holders()['step']
+            if not step:
                 raise core.MachineryError('TraceStep left the step group of the solved model empty')
+            for real in SOLVED_STEP_NAMES.values():
+                if real not in step or len(step[real]) <= SOLVED_MAXTIME + 1:
+                    raise core.MachineryError('step group of the solved model is not longer than MaxTime+1')
+                vals.update(step[real])
+            self.table = {v: 100 + i for i, v in enumerate(sorted(vals))}
         elif kind == 'interrupted':
             self._build_interrupted()
         elif kind == 'initialised':
@@ -160,6 +172,9 @@ class World(object):
             if any(real in h for h in self.pristine.values()):
                 raise core.MachineryError('the supposedly absent name %r is stored' % real)
         self.base_keys = {g: set(self.pristine[g]) for g in GROUPS}
+        self.maxtime0 = self.model.MaxTime
+        if not isinstance(self.maxtime0, int) or isinstance(self.maxtime0, bool):
+            raise core.MachineryError('Model.MaxTime is not an int: %r' % (self.maxtime0,))
 
     def _build_interrupted(self):
         """A Model whose run really stops at step 3.  Model.main() renders the (ragged) store in its
@@ -222,7 +237,7 @@ class World(object):
     def deep(self):
         return {g: {k: list(v) for k, v in h.items()} for g, h in self.holders().items()}
 
-    def restore(self, store=None):
+    def restore(self, store=None, track_step=False):
         """Back to the pristine stored results (all three groups); the known world takes the store of
         the behaviour."""
         src = self.pristine
@@ -234,6 +249,9 @@ class World(object):
             for k, v in src[g].items():
                 h[k] = list(v)
         self.base_keys = {g: set(src[g]) for g in GROUPS}
+        if self.kind == 'solved':       # the long step series is shipped only to histories that ask for it
+            self.names['step'] = dict(SOLVED_STEP_NAMES) if track_step else {}
+        self.model.MaxTime = self.maxtime0
         self.model.TimeSeriesCutoff = None
         self.model.TimeSeriesSupressTimeZero = False
 
@@ -332,7 +350,7 @@ def main_finally_events(w, base_varlist):
     bdig = core.digest({k: list(v) for k, v in BASE.items()})
     common = {'vl': vl, 'bdig': bdig, 'vl_same': True, 'base_same': True}
     w.base_keys = {g: set(before[g]) for g in GROUPS}
-    ev0 = dict({'ev': 'Init', 'world': w.kind, 'snap': w.project(before), 'dig': core.digest(before),
+    ev0 = dict({'ev': 'Init', 'world': w.kind, 'maxtime': w.maxtime0, 'snap': w.project(before), 'dig': core.digest(before),
                 'store_same': False}, **common)
     ev1 = {'ev': 'RenderTable', 'grp': 'main', 'fmt': fmt, 'same_first': True}
     try:
@@ -362,7 +380,8 @@ def execute(beh, kind='known'):
     beh = normalise(beh)
     if beh.get('special') == MAIN_FINALLY:
         return main_finally_events(w, beh['varlist'])
-    w.restore(beh.get('store'))
+    w.restore(beh.get('store'), track_step=any(c['ev'] == 'Get' and c['grp'] == 'step' and
+                                               c['name'] in SOLVED_STEP_NAMES for c in beh['calls']))
     m = w.model
     base = make_base(beh['varlist'])
     held = []
@@ -384,7 +403,7 @@ def execute(beh, kind='known'):
         state.update(deep=deep, vl=vl, battr=battr, snap=o['snap'])
         return o
 
-    ev = {'ev': 'Init', 'world': kind}
+    ev = {'ev': 'Init', 'world': kind, 'maxtime': m.MaxTime}
     ev.update(observe())
     events = [ev]
     for call in beh['calls']:
@@ -402,6 +421,10 @@ def execute(beh, kind='known'):
             cut_eff = m.TimeSeriesCutoff if call['c'] == NOCUT else call['c']
             ev['cut_eff'] = NOCUT if cut_eff is None else cut_eff
             ev['sup'] = bool(m.TimeSeriesSupressTimeZero)
+            ev['maxtime'] = m.MaxTime
+            # census only: cutoff above Model.MaxTime asked of a series that is longer than MaxTime+1
+            ev['beyond'] = bool(ev['stored'] and cut_eff is not None and isinstance(m.MaxTime, int) and
+                                cut_eff > m.MaxTime and n_pre > m.MaxTime + 1)
             # census only: suppression on and the (truncated) series has exactly its k=0 point
             ev['one_point'] = bool(ev['sup'] and ev['stored'] and
                                    (n_pre if cut_eff is None else min(n_pre, cut_eff + 1)) == 1)
@@ -436,6 +459,9 @@ def execute(beh, kind='known'):
         elif what == 'SetCutoff':
             ev = {'ev': 'SetCutoff', 'c': call['c']}
             m.TimeSeriesCutoff = None if call['c'] == NOCUT else call['c']
+        elif what == 'SetMaxTime':
+            ev = {'ev': 'SetMaxTime', 'c': call['c']}
+            m.MaxTime = call['c']
         elif what == 'RenderTable':
             grp = call['grp']
             ev = {'ev': 'RenderTable', 'grp': grp, 'fmt': call['fmt']}
@@ -481,7 +507,10 @@ def execute(beh, kind='known'):
 # --------------------------------------------------------------------------------------
 
 def _cs(ev):
-    return 'cutoff=%s,suppress=%s' % ('none' if ev.get('cut_eff', NOCUT) == NOCUT else 'n',
+    cut = ev.get('cut_eff', NOCUT)
+    mt = ev.get('maxtime')
+    return 'cutoff=%s,suppress=%s' % ('none' if cut == NOCUT else ('n>MaxTime' if isinstance(mt, int) and cut > mt
+                                                                     else 'n'),
                                       'true' if ev.get('sup') else 'false')
 
 
@@ -543,6 +572,8 @@ def call_text(c):
         return 'RenderTable(%s%s)' % ('' if c.get('grp', 'main') == 'main' else c['grp'] + ':', c['fmt'])
     if c['ev'] == 'Extend':
         return 'Extend(%s)' % c['name']
+    if c['ev'] == 'SetMaxTime':
+        return 'SetMaxTime(%s)' % c['c']
     return c['ev']
 
 
@@ -552,15 +583,17 @@ def parse_verdict(v):
     return kind, clause, int(at or 0)
 
 
-def judge(rep, behs, kind, need_failing_get=False, need_one_point=False):
+def judge(rep, behs, kind, need_failing_get=False, need_one_point=False, need_beyond=False):
     """Replays the behaviours in one world and has TLC judge all recorded traces in one batch."""
     traces = []
     failing = 0
     one_point = 0
+    beyond = 0
     for i, b in enumerate(behs):
         traces.append((i, execute(b, kind)))
         failing += sum(1 for e in traces[-1][1] if e['ev'] == 'Get' and not e['stored'])
         one_point += sum(1 for e in traces[-1][1] if e['ev'] == 'Get' and e.get('one_point'))
+        beyond += sum(1 for e in traces[-1][1] if e['ev'] == 'Get' and e.get('beyond'))
         case = {'world': kind, 'behaviour': b}
         if len(rep.samples) < 3:
             case = dict(case, observed=traces[-1][1])
@@ -569,6 +602,10 @@ def judge(rep, behs, kind, need_failing_get=False, need_one_point=False):
         raise core.MachineryError('no retrieval of a name that is not stored was executed in world ' + kind)
     if need_one_point and not one_point:
         raise core.MachineryError('no suppressed retrieval of a one-point slice was executed in world ' + kind)
+    if need_beyond and not beyond:
+        raise core.MachineryError('no retrieval with a cutoff above Model.MaxTime from a series longer than '
+                                  'MaxTime+1 was executed in world ' + kind)
+    rep.extra['gets_beyond_maxtime'] = rep.extra.get('gets_beyond_maxtime', 0) + beyond
     rep.extra['gets_of_names_not_stored'] = rep.extra.get('gets_of_names_not_stored', 0) + failing
     rep.extra['suppressed_one_point_gets'] = rep.extra.get('suppressed_one_point_gets', 0) + one_point
     verdicts, st, tr = core.validate_traces('MC_Results_Trace', 'MC_Results_Trace.cfg', traces, tag='c16')
@@ -609,9 +646,10 @@ def behaviours_of(rep, cfg, seen, res):
 
 
 QUICK_CFGS = ['MC_Results_quick.cfg', 'MC_Results_quick2.cfg', 'MC_Results_ragged.cfg', 'MC_Results_miss.cfg',
-              'MC_Results_edge.cfg']
+              'MC_Results_edge.cfg', 'MC_Results_horizon.cfg']
 THOROUGH_CFGS = ['MC_Results_thorough.cfg', 'MC_Results_thorough2.cfg', 'MC_Results_ragged_thorough.cfg',
-                 'MC_Results_miss_thorough.cfg', 'MC_Results_miss_thorough2.cfg', 'MC_Results_edge_thorough.cfg']
+                 'MC_Results_miss_thorough.cfg', 'MC_Results_miss_thorough2.cfg', 'MC_Results_edge_thorough.cfg',
+                 'MC_Results_horizon_thorough.cfg']
 
 
 def run(rep):
@@ -646,7 +684,7 @@ def run(rep):
                                      for b in behs for c in b['calls']):
             raise core.MachineryError('%s never asks for a name that is not stored' % cfg)
     everything = [b for cfg in cfgs for b in by_cfg[cfg]]
-    judge(rep, everything, 'known', need_failing_get=True, need_one_point=True)
+    judge(rep, everything, 'known', need_failing_get=True, need_one_point=True, need_beyond=True)
     if rep.tier != 'quick':
         rnd = random.Random(rep.seed)
         ragged = by_cfg['MC_Results_ragged.cfg'] + by_cfg['MC_Results_ragged_thorough.cfg']
@@ -656,8 +694,13 @@ def run(rep):
         rnd.shuffle(longer)                                         # a seeded sample of the longer ones
         edge = by_cfg['MC_Results_edge.cfg'] + by_cfg['MC_Results_edge_thorough.cfg']
         main_edge = [b for b in edge if all(c['grp'] != 'step' for c in b['calls'] if c['ev'] == 'Get')]
-        judge(rep, by_cfg['MC_Results_quick.cfg'] + quick_miss + longer[:6000] + main_edge, 'solved',
-              need_failing_get=True, need_one_point=True)
+        # horizon histories on the solved model (MaxTime 8, 160 sweeps in the step group): those that do not
+        # ask for the initial group's x, which this model does not hold
+        horizon = by_cfg['MC_Results_horizon.cfg'] + by_cfg['MC_Results_horizon_thorough.cfg']
+        horizon = [b for b in horizon if all(c['grp'] != 'initial' for c in b['calls'] if c['ev'] == 'Get')]
+        rnd.shuffle(horizon)
+        judge(rep, by_cfg['MC_Results_quick.cfg'] + quick_miss + longer[:6000] + main_edge + horizon[:3000],
+              'solved', need_failing_get=True, need_one_point=True, need_beyond=True)
         special = {'special': MAIN_FINALLY, 'varlist': ['x', 'y', 't'],
                    'calls': [{'ev': 'RenderTable', 'grp': 'main', 'name': '', 'c': NOCUT, 'i': 0, 'op': '',
                               'b': False, 'fmt': '%.5g'}]}
